@@ -177,6 +177,7 @@ type Machine struct {
 	ufLastNonEmpty   map[int]bool
 	siteCache        map[token.Pos]string
 	lastIntrRes      Value
+	curFn            *ssa.Function
 	lastIntrSt       invStatus
 	harnessFn        map[*ssa.Function]bool
 }
